@@ -4,10 +4,14 @@ set -e
 cd "$(dirname "$0")"
 coqc -Q ../coq Moss Extract.v >/dev/null
 mkdir -p ../.build
-for drv in flatrun treerun indexrun rorun crashrun codecrun histrun histtreerun faultrun iterrun concrun refsrun ownersrun; do
+for drv in flatrun treerun indexrun rorun codecrun histrun histtreerun faultrun iterrun concrun refsrun ownersrun; do
   ocamlfind ocamlopt -w -a -package str model.mli model.ml sexp.ml conv.ml $drv.ml -o ../.build/$drv
 done
 # the persistence-round model (StoreOps.v) is extracted into opsmodel.ml by Extract.v
 ocamlfind ocamlopt -w -a -package str opsmodel.mli opsmodel.ml sexp.ml opsrun.ml -o ../.build/opsrun
 # syncrun also steps the fine-grained wait/notify model (Sync2.v, Sync2Run.v), extracted into sync2model.ml
 ocamlfind ocamlopt -w -a -package str model.mli model.ml sync2model.mli sync2model.ml sexp.ml conv.ml syncrun.ml -o ../.build/syncrun
+# crashrun also evaluates the directory-level crash discipline (CrashFiles.v), extracted into crashfiles.ml
+ocamlfind ocamlopt -w -a -package str model.mli model.ml crashfiles.mli crashfiles.ml sexp.ml conv.ml crashrun.ml -o ../.build/crashrun
+# batchbufrun steps the batch-buffer model (BatchBuf.v), extracted into bbmodel.ml
+ocamlfind ocamlopt -w -a -package str bbmodel.mli bbmodel.ml sexp.ml batchbufrun.ml -o ../.build/batchbufrun
